@@ -103,6 +103,14 @@ def _ts(fn, e, depth=0, follow=True):
             and isinstance(e.func.value.value, str):
         sep = e.func.value.value
         g = e.args[0]
+        if isinstance(g, (ast.Tuple, ast.List)) and not any(isinstance(x, ast.Starred) for x in g.elts):
+            # sep.join((a, b, c)) = a + sep + b + sep + c
+            out = []
+            for i, x in enumerate(g.elts):
+                out += text_structure(fn, x, depth + 1, follow)
+                if sep and i + 1 < len(g.elts):
+                    out.append(("lit", sep))
+            return out
         if isinstance(g, ast.Name):
             defs = [st for st in walk_no_nested(fn) if isinstance(st, ast.Assign) and len(st.targets) == 1 and isinstance(st.targets[0], ast.Name) and st.targets[0].id == g.id]
             apps = [c for c in ast.walk(fn) if isinstance(c, ast.Call) and isinstance(c.func, ast.Attribute) and c.func.attr == "append" and norm(c.func.value) == g.id and len(c.args) == 1]
